@@ -5,18 +5,96 @@
 // Every per-thread execution must match the sequential expectation; built with ThreadSanitizer, any data
 // race inside the library is reported and aborts.
 //
-// usage: threads_replay <seed> <stream1.ndjson> <stream2.ndjson> ...
+// With --cases <file>: every thread also runs its share of reader cases computed by TLC from JsonReader.tla /
+// MsgPack.tla (input, expected code and value): deserialize through a string, a stream or a custom reader,
+// compare with the specification, serialize to JSON and MessagePack and read both back.
+//
+// usage: threads_replay <seed> [--cases <cases.ndjson>] <stream1.ndjson> <stream2.ndjson> ...
 #include <atomic>
 #include <cstdio>
 #include <fstream>
 #include <thread>
 
+#include <sstream>
+
 #include "common/docworld.hpp"
+#include "common/bytevalue.hpp"
 
 static std::atomic<long> g_bad{0}, g_ops{0}, g_shared{0};
 
-static void worker(int tid, const char* path, unsigned long long seed, const JsonDocument* shared, std::string sharedJson,
+struct ByteReader {
+  const std::string* d;
+  size_t pos = 0;
+  int read() { return pos < d->size() ? (unsigned char)(*d)[pos++] : -1; }
+  size_t readBytes(char* b, size_t n) {
+    size_t k = 0;
+    while (k < n && pos < d->size()) b[k++] = (*d)[pos++];
+    return k;
+  }
+};
+
+static std::vector<mj::Value> g_cases;
+static std::atomic<long> g_caseRuns{0};
+
+static const char* codeName(DeserializationError e) {
+  switch (e.code()) {
+    case DeserializationError::Ok: return "Ok";
+    case DeserializationError::EmptyInput: return "EmptyInput";
+    case DeserializationError::IncompleteInput: return "IncompleteInput";
+    case DeserializationError::InvalidInput: return "InvalidInput";
+    case DeserializationError::NoMemory: return "NoMemory";
+    case DeserializationError::TooDeep: return "TooDeep";
+  }
+  return "?";
+}
+
+// one reader case on this thread's own documents; returns a description of the disagreement or ""
+static std::string runCase(const mj::Value& c, long idx) {
+  bool mp = c.has("fmt") && c.str("fmt") == "msgpack";
+  std::string bytes;
+  for (auto& x : c.at("inp").a) bytes += char((unsigned char)x.i);
+  if (!mp && bytes.find('\0') != std::string::npos) return "";
+  using namespace DeserializationOption;
+  NestingLimit lim((uint8_t)c.num("lim"));
+  JsonDocument doc;
+  DeserializationError e;
+  int kind = (int)(idx % 3);
+  if (kind == 0) e = mp ? deserializeMsgPack(doc, bytes, lim) : deserializeJson(doc, bytes, lim);
+  else if (kind == 1) { std::istringstream is(bytes); e = mp ? deserializeMsgPack(doc, is, lim) : deserializeJson(doc, is, lim); }
+  else { ByteReader r{&bytes}; e = mp ? deserializeMsgPack(doc, r, lim) : deserializeJson(doc, r, lim); }
+  if (c.str("code") != codeName(e)) return std::string("code expected=") + c.str("code") + " got=" + codeName(e);
+  if (e) return "";
+  bool weird = c.has("weird") && c.boolean("weird");
+  std::string d = bv::compare(doc.as<JsonVariantConst>(), c.at("v"), false, false, weird);
+  if (!d.empty()) return "value " + d;
+  // write and read back, both formats (raw MessagePack values have no JSON form)
+  std::string m;
+  serializeMsgPack(doc, m);
+  JsonDocument back;
+  if (deserializeMsgPack(back, m, NestingLimit(255)) != DeserializationError::Ok) return "MessagePack output not readable";
+  // (integral floating-point values come back as integers, narrowed doubles as floats: the bytes are a fixed point)
+  std::string m2;
+  serializeMsgPack(back, m2);
+  if (m2 != m) return "MessagePack round trip is not a fixed point";
+  if (!mp) {
+    std::string j, pj;
+    serializeJson(doc, j);
+    serializeJsonPretty(doc, pj);
+    JsonDocument b2, b3;
+    if (deserializeJson(b2, j, NestingLimit(255)) != DeserializationError::Ok ||
+        deserializeJson(b3, pj, NestingLimit(255)) != DeserializationError::Ok)
+      return "JSON output not readable";
+    std::string j2, j3;
+    serializeJson(b2, j2);
+    serializeJson(b3, j3);
+    if (j2 != j || j3 != j) return "JSON round trip is not a fixed point";
+  }
+  return "";
+}
+
+static void worker(int tid, int nthreads, const char* path, unsigned long long seed, const JsonDocument* shared, std::string sharedJson,
                    std::string filteredExpect) {
+  long nextCase = tid;
   std::ifstream in(path);
   std::string line;
   std::unique_ptr<dw::World> w;
@@ -60,9 +138,20 @@ static void worker(int tid, const char* path, unsigned long long seed, const Jso
           if (g_bad++ < 5) printf("MISMATCH thread=%d shared document read differs\n", tid);
         }
       }
+      // this thread's share of the reader cases, interleaved with the document operations
+      for (int rep = 0; rep < 2 && nextCase < (long)g_cases.size(); rep++, nextCase += nthreads) {
+        std::string why = runCase(g_cases[(size_t)nextCase], nextCase);
+        g_caseRuns++;
+        if (!why.empty() && g_bad++ < 5) printf("MISMATCH thread=%d case=%ld %s\n", tid, nextCase, why.c_str());
+      }
       if (idx % 13 == 0) std::this_thread::yield();
     }
     idx++;
+  }
+  for (; nextCase < (long)g_cases.size(); nextCase += nthreads) {
+    std::string why = runCase(g_cases[(size_t)nextCase], nextCase);
+    g_caseRuns++;
+    if (!why.empty() && g_bad++ < 5) printf("MISMATCH thread=%d case=%ld %s\n", tid, nextCase, why.c_str());
   }
 }
 
@@ -77,13 +166,21 @@ int main(int argc, char** argv) {
   deserializeJson(fe, sharedJson, DeserializationOption::Filter(shared.as<JsonVariantConst>()["f"]));
   std::string filteredExpect;
   serializeJson(fe, filteredExpect);
+  int first = 2;
+  if (argc > 4 && std::string(argv[2]) == "--cases") {
+    std::ifstream cf(argv[3]);
+    std::string cl;
+    while (std::getline(cf, cl)) if (!cl.empty()) g_cases.push_back(mj::parse(cl));
+    first = 4;
+  }
   std::vector<std::thread> ts;
-  for (int i = 2; i < argc; i++)
-    ts.emplace_back(worker, i - 2, argv[i], seed, &shared, sharedJson, filteredExpect);
+  for (int i = first; i < argc; i++)
+    ts.emplace_back(worker, i - first, argc - first, argv[i], seed, &shared, sharedJson, filteredExpect);
   for (auto& t : ts) t.join();
   std::string after;
   serializeJson(shared, after);
   if (after != sharedJson) { printf("MISMATCH shared document changed\n"); g_bad++; }
-  printf("SUMMARY threads=%d ops=%ld shared_reads=%ld mismatches=%ld\n", argc - 2, g_ops.load(), g_shared.load(), g_bad.load());
+  printf("SUMMARY threads=%d ops=%ld shared_reads=%ld cases=%ld mismatches=%ld\n", argc - first, g_ops.load(), g_shared.load(),
+         g_caseRuns.load(), g_bad.load());
   return g_bad ? 1 : 0;
 }
